@@ -60,6 +60,34 @@ class Scope(BaseScope):
         return self.top.source.filename
 
 
+def unknown_ancestors(flow):
+    # type: (Flow) -> list[Flow]
+    """The regions `flow` descends from whose name tables are not known yet, oldest first"""
+    found = {}  # type: dict[int, Flow]
+    todo = [flow]
+    cache = LoopResolution.depth and LoopResolution.cache or {}
+    while todo:
+        f = todo.pop()
+        if id(f) in found or 'names' in f.__dict__ or (f, 'names') in cache:
+            continue
+        found[id(f)] = f
+        if f.parents:
+            for p in f.parents:
+                if isinstance(p, LoopFlow):
+                    if not p._resolving and '_names' not in p.__dict__:
+                        todo.append(p.parent)
+                else:
+                    todo.append(p)
+        else:
+            pscope = f.scope.parent
+            while isinstance(pscope, ClassScope):
+                pscope = pscope.parent
+            pflow = getattr(pscope, 'flow', None)
+            if isinstance(pflow, Flow):
+                todo.append(pflow)
+    return sorted(found.values(), key=lambda f: f.index)
+
+
 class LoopResolution(object):
     """Loop back-edges being resolved right now.
 
@@ -69,6 +97,7 @@ class LoopResolution(object):
     """
     depth = 0
     cache = {}  # type: dict[tuple[object, str], t.Any]
+    warming = -1  # resolution depth at which ancestors are being computed
 
 
 def loop_aware_cached_property(func):  # type: ignore[no-untyped-def]
@@ -79,6 +108,19 @@ def loop_aware_cached_property(func):  # type: ignore[no-untyped-def]
             return self.__dict__[attr]
         except KeyError:
             pass
+
+        if attr == 'names' and LoopResolution.warming != LoopResolution.depth:
+            # a table is computed from the tables of the regions before it:
+            # do the oldest first, so that long flat code is not walked by
+            # recursion
+            warming = LoopResolution.warming
+            LoopResolution.warming = LoopResolution.depth
+            try:
+                for flow in unknown_ancestors(self):
+                    if flow is not self:
+                        flow.names
+            finally:
+                LoopResolution.warming = warming
 
         if LoopResolution.depth:
             key = self, attr
@@ -101,6 +143,7 @@ class Flow(object):
         # type: (str, Scope, t.MutableSequence[Flow | LoopFlow] | None) -> None
         self.hint = hint
         self.scope = scope
+        self.index = 0
         self._names = []  # type: list[Name]
         self.parents = parents or []  # type: t.MutableSequence[Flow | LoopFlow]
 
@@ -358,6 +401,7 @@ class SourceScope(Scope):
 
     def add_flow(self, flow):
         # type: (Flow) -> Flow
+        flow.index = len(self._all_flows)
         self._all_flows.append(flow)
         return flow
 
